@@ -75,9 +75,55 @@ fn rng_stream_fresh(h: &mut Harness) {
     }
 }
 
+/// several threads draw at the same time: no 12-byte window may occur in two threads' outputs (or twice in one)
+fn rng_threads_fresh(h: &mut Harness) {
+    use rand::RngCore;
+    let handles: Vec<std::thread::JoinHandle<Vec<u8>>> = (0..6)
+        .map(|k| {
+            std::thread::spawn(move || {
+                let mut rng = strand::rnd::StrandRng;
+                let mut out = vec![];
+                for i in 0..200 {
+                    let mut buf = vec![0u8; [32usize, 64, 30, 8][(i + k) % 4]];
+                    rng.fill_bytes(&mut buf);
+                    out.extend(buf);
+                }
+                out
+            })
+        })
+        .collect();
+    let outs: Vec<Vec<u8>> = handles.into_iter().map(|t| t.join().unwrap_or_default()).collect();
+    let mut all = vec![];
+    let mut starts = vec![];
+    for o in &outs {
+        starts.push(all.len());
+        all.extend(o);
+        all.extend([0u8; 0]);
+    }
+    match repeated_window(&all, 12) {
+        Some((a, bb)) => {
+            let th = |pos: usize| starts.partition_point(|s| *s <= pos) - 1;
+            h.check(false, || format!("StrandRng hands out the same bytes on different threads: bytes at offset {} of thread {} repeat bytes at offset {} of thread {}", bb - starts[th(bb)], th(bb), a - starts[th(a)], th(a)))
+        }
+        None => h.check(outs.iter().all(|o| !o.is_empty()), || "a sampling thread panicked".to_string()),
+    }
+}
+
 pub fn run<C: NatCtx>(v: &mut Env<C>) {
     if v.small && v.p == big(23) && C::kind() == 'B' {
         rng_stream_fresh(&mut v.h);
+        rng_threads_fresh(&mut v.h);
+    }
+    if !v.small && v.p.bits() > 100 {
+        // exponents drawn on different threads never coincide (two provers on two threads never share a nonce)
+        let ctx = v.ctx.clone();
+        let hs: Vec<std::thread::JoinHandle<Vec<BigUint>>> = (0..4).map(|_| { let c = ctx.clone(); std::thread::spawn(move || (0..8).map(|_| C::x_val(&c.rnd_exp())).collect()) }).collect();
+        let mut all: Vec<BigUint> = hs.into_iter().flat_map(|t| t.join().unwrap_or_default()).collect();
+        let n0 = all.len();
+        all.sort();
+        all.dedup();
+        let tok = v.tok.clone();
+        v.h.check(n0 == 32 && all.len() == 32, || format!("random exponents drawn on four threads: {} drawn, {} distinct on {}", n0, all.len(), tok));
     }
     let quick = v.h.tier == Tier::Quick;
     let (p, q, g) = (v.p.clone(), v.q.clone(), v.g.clone());
